@@ -17,6 +17,8 @@
    Known-finding class excluded by the `_partial` theorem:
      D20_step  an application send of a SequenceReset that is not a gap fill (raw_seq m = true and
                skip_journal m = false): numbered by its own MsgSeqNum field and journaled under it
+               (since R8a the follow-up damage is a failed send that writes nothing, not a duplicate
+               number on the wire: C05_journal_before_write, C05_app_seqreset_refuted)
    Numbers are assumed inside SQLite's INTEGER range (in_i64 / in_range hypotheses). *)
 From Coq Require Import ZArith NArith List Bool.
 From AF Require Import Base.Sx Py.Str Fix.Session Lemmas.SessionL Lemmas.SessionC04L Lemmas.SessionC11L Lemmas.SessionC05L.
@@ -94,15 +96,33 @@ Example C05_app_gapfill_in_scope :
 Proof. exact app_gapfill_in_scope. Qed.
 Print Assumptions C05_app_gapfill_in_scope.
 
-(* D20: an application-sent plain SequenceReset(34 = next_num_out, no GapFillFlag) is journaled under that number
-   without consuming it; the next new message carries the same number and its journal write raises DuplicateSeqNoError after
-   the frame was written *)
+(* R8a - journal first, then write - for EVERY world (inside or outside the invariant, D20 included):
+   a send_msg that raises (refusal, encoding error, journal error, closed writer) has written nothing;
+   a send_msg that returns has written exactly one frame, and unless it is one of the never-journaled kinds
+   (PossDupFlag=Y / SequenceReset-GapFill) that frame is in the outbound journal under its own number *)
+Theorem C05_journal_before_write : forall c m w,
+  match rv (send_msg c m w) with
+  | inr _ => wires (re (send_msg c m w)) = []
+  | inl _ => exists n, wires (re (send_msg c m w)) = [mkMsg (mtype m) (wire_tags c n m)]
+                       /\ (skip_journal m = false ->
+                           In (n, mkMsg (mtype m) (wire_tags c n m)) (j_out (jr (rw (send_msg c m w)))))
+  end.
+Proof. exact send_msg_journal_first. Qed.
+Print Assumptions C05_journal_before_write.
+
+(* D20: an application-sent plain SequenceReset(34 = next_num_out, no GapFillFlag) is written and journaled under
+   that number without consuming it (Out_inv breaks: next_num_out is already a journal key).  Since R8a the
+   duplicate number no longer reaches the wire: the next new message fails in the journal BEFORE the write -
+   DuplicateSeqNoError, no frame, no journal row, the application message is lost and its number is burnt *)
 Theorem C05_app_seqreset_refuted :
   exists c w h,
     Out_inv w
-    /\ map (fun wm => get T34 (mtags wm)) (wires (trace (run c w h))) = [Some (S "1"); Some (S "2"); Some (S "2")]
-    /\ (exists s, In s (run c w h) /\ rv (s_res s) = inr XDupSeq /\ wires (s_events s) <> [])
-    /\ (exists s, In s (run c w h) /\ Out_inv (s_before s) /\ ~ Out_inv (s_after s)).
+    /\ map (fun wm => get T34 (mtags wm)) (wires (trace (run c w h))) = [Some (S "1"); Some (S "2")]
+    /\ (exists s, In s (run c w h) /\ Out_inv (s_before s) /\ ~ Out_inv (s_after s)
+                  /\ nout (s_after s) = nout (s_before s) /\ has_key (nout (s_after s)) (j_out (jr (s_after s))) = true)
+    /\ (exists s, In s (run c w h) /\ rv (s_res s) = inr XDupSeq /\ s_events s = []
+                  /\ nout (s_after s) = nout (s_before s) + 1
+                  /\ j_out (jr (s_after s)) = j_out (jr (s_before s))).
 Proof. exact app_seqreset_refuted. Qed.
 Print Assumptions C05_app_seqreset_refuted.
 
